@@ -11,6 +11,8 @@ pub mod c07;
 pub mod c08;
 pub mod c09;
 pub mod c10;
+pub mod c11;
+pub mod c12;
 pub mod c15;
 
 pub fn run(ctx: &Ctx) -> i32 {
@@ -25,6 +27,8 @@ pub fn run(ctx: &Ctx) -> i32 {
         "C08" => c08::run(ctx),
         "C09" => c09::run(ctx),
         "C10" => c10::run(ctx),
+        "C11" => c11::run(ctx),
+        "C12" => c12::run(ctx),
         "C15" => c15::run(ctx),
         other => {
             eprintln!("unknown property {}", other);
@@ -45,6 +49,8 @@ pub fn replay(prop: &str, op: &str, case: &Value, acc: &mut Acc) -> bool {
         "C08" => c08::replay(op, case, acc),
         "C09" => c09::replay(op, case, acc),
         "C10" => c10::replay(op, case, acc),
+        "C11" => c11::replay(op, case, acc),
+        "C12" => c12::replay(op, case, acc),
         "C15" => c15::replay(op, case, acc),
         _ => false,
     }
